@@ -147,6 +147,9 @@ func (i *NetflowV5) run() {
 		netflowV5UDPCh <- NetflowV5UDPMsg{raddr, b[:n]}
 	}
 
+	// no more datagrams are queued: let the workers finish and leave
+	close(netflowV5UDPCh)
+
 }
 
 func (i *NetflowV5) shutdown() {
@@ -160,9 +163,7 @@ func (i *NetflowV5) shutdown() {
 	logger.Println("stopping netflow v5 service gracefully ...")
 	time.Sleep(1 * time.Second)
 
-	// logging and close UDP channel
 	logger.Println("netflow v5 has been shutdown")
-	close(netflowV5UDPCh)
 }
 
 func (i *NetflowV5) netflowV5Worker(wQuit chan struct{}) {
